@@ -80,6 +80,21 @@ type Out struct {
 	SimActive func() bool
 	stuckMu   sync.Mutex
 	stuckFn   func()
+	// StallProbe (set by the worker to simsched.StallProbe) returns a description
+	// when the simulated run in progress has stopped for good because goroutines
+	// of the system under test are blocked on something that lives outside the
+	// simulation (a process-wide channel or lock): see Watch.
+	StallProbe func() string
+	stallMsg   string
+}
+
+// StuckWhat is for the per-case stuck handler: signature and message of what
+// Watch has found.
+func (o *Out) StuckWhat() (sig, msg string) {
+	if o.stallMsg != "" {
+		return "deadlock|blocked-outside-simulation", o.stallMsg
+	}
+	return "livelock|never-returned", "the run exceeded its scheduler step budget and, left to run freely, still had not returned three seconds later: an endless loop"
 }
 
 // SetOnStuck installs the per-case handler that Watch calls when a run is stuck.
@@ -147,6 +162,15 @@ func (o *Out) Watch(limit time.Duration) {
 				}
 			} else {
 				stuckFor = 0
+			}
+			if o.StallProbe != nil {
+				if msg := o.StallProbe(); msg != "" {
+					if h := o.onStuck(); h != nil {
+						o.stallMsg = msg
+						h()
+						os.Exit(0)
+					}
+				}
 			}
 			b := atomic.LoadInt64(&o.began)
 			if b != 0 && time.Since(time.Unix(0, b)) > limit {
